@@ -51,6 +51,7 @@ pub proof fn lemma_align_down(a: u64, align: u64)
         is_mult(a as int, align as int) <==> align_down_spec(a, align) == a,
         align_down_spec(a, align) as int == a as int - (a as int % align as int),
 {
+    reveal(is_mult);
     lemma_pow2_mask_mod(a, align);
     lemma_floor_multiple(a as int, align as int);
 }
@@ -70,6 +71,7 @@ pub proof fn lemma_align_up(a: u64, align: u64)
         is_mult(align_up_int(a, align), align as int),
         forall|m: int| #[trigger] is_mult(m, align as int) && m >= a ==> m >= align_up_int(a, align),
 {
+    reveal(is_mult);
     lemma_pow2_mask_mod(a, align);
     lemma_floor_multiple(a as int, align as int);
 }
@@ -301,6 +303,7 @@ pub proof fn lemma_virt_align_up(a: u64, align: u64)
             && (sext48(up) == up || (up == 0x8000_0000_0000 && sext48(up) == 0xffff_8000_0000_0000))
         }),
 {
+    reveal(is_mult);
     if pow2_u64(align) && align_up_int(a, align) <= u64::MAX && canonical(a) && align <= 0x8000_0000_0000 {
         lemma_align_up(a, align);
         lemma_canonical_halves(a);
